@@ -952,7 +952,17 @@ func (fr *Frame) nilCheck(p Val, src ssa.Value, pos token.Pos, what string) {
 	if !nilSuspect(src) {
 		return
 	}
-	ex.oblige("safe", "nil-deref", fmt.Sprintf("(not (= %s 0))", p.T), fr.curReach, "nil pointer dereference ("+what+") of "+src.Name(), pos, []string{"C19"})
+	// the ledger of undischarged sweep obligations is kept per function and kind; for pointers loaded from a struct field
+	// the kind carries the field name, so a new unguarded use of another optional field is not hidden by an old one
+	detail := "nil-deref"
+	if u, ok := src.(*ssa.UnOp); ok && u.Op == token.MUL {
+		if fa, ok := u.X.(*ssa.FieldAddr); ok {
+			if st, ok := fa.X.Type().Underlying().(*types.Pointer).Elem().Underlying().(*types.Struct); ok {
+				detail = "nil-deref:" + st.Field(fa.Field).Name()
+			}
+		}
+	}
+	ex.oblige("safe", detail, fmt.Sprintf("(not (= %s 0))", p.T), fr.curReach, "nil pointer dereference ("+what+") of "+src.Name(), pos, []string{"C19"})
 }
 
 // nilSuspect: checked nil-dereference only for values from calls, lookups, loads of pointer fields, type asserts.
